@@ -236,3 +236,18 @@ pub(crate) fn is_internal_ptr_from_vo_bit<VM: VMBinding>(
 pub(crate) unsafe fn is_vo_addr(addr: Address) -> bool {
     VO_BIT_SIDE_METADATA_SPEC.load::<u8>(addr) != 0
 }
+
+/// Verification hooks: the crate-private lookup kernels.
+#[cfg(mmtk_verif)]
+pub mod verif {
+    use super::*;
+    pub fn is_vo_bit_set_for_addr(address: Address) -> Option<ObjectReference> {
+        super::is_vo_bit_set_for_addr(address)
+    }
+    pub fn find_object_from_internal_pointer<VM: VMBinding>(
+        start: Address,
+        search_limit_bytes: usize,
+    ) -> Option<ObjectReference> {
+        super::find_object_from_internal_pointer::<VM>(start, search_limit_bytes)
+    }
+}
